@@ -45,6 +45,13 @@ theorem takeHex_fmtHex (w n : Nat) (rest : List Char) (hw : 0 < w) (h : n < 16 ^
   rw [h2, h3, ofHex_fmtHex w n hw h]
 
 
+theorem toHexW_allHex (w n : Nat) : (toHexW w n).all isUpperHex = true := by
+  induction w generalizing n with
+  | zero => rfl
+  | succ w ih =>
+    simp only [toHexW, List.all_append, ih, List.all_cons, List.all_nil, Bool.and_true, Bool.true_and]
+    exact isUpperHex_hexDigit _ (Nat.mod_lt _ (by decide))
+
 theorem hexVal_lt (c : Char) (v : Nat) (h : hexVal c = some v) : v < 16 := by
   unfold hexVal at h
   simp only at h
